@@ -322,10 +322,13 @@ impl LuaTypeIndex {
     }
 
     pub fn add_super_type(&mut self, decl_id: LuaTypeDeclId, file_id: FileId, super_type: LuaType) {
-        self.supers
-            .entry(decl_id)
-            .or_default()
-            .push(InFiled::new(file_id, super_type));
+        // Keep the super types of a class that several files extend (partial classes) grouped
+        // in file-id order: member lookup takes the first super that has the member, so with
+        // plain insertion order the result depended on which declaring file was (re-)analysed
+        // last.
+        let supers = self.supers.entry(decl_id).or_default();
+        let at = supers.partition_point(|existing| existing.file_id.id <= file_id.id);
+        supers.insert(at, InFiled::new(file_id, super_type));
     }
 
     pub fn get_super_types(&self, decl_id: &LuaTypeDeclId) -> Option<Vec<LuaType>> {
